@@ -313,7 +313,7 @@ def f8_predicate(text):
         if not legacy_icase_context(flags, ast):
             return False
         # a negated class escape inside a bracket: its raw set contains every non-ASCII case partner
-        if re.search(r"\(v?class [01][^)]*\(esc [WDS]\)", ast):
+        if re.search(r"class [01] ", ast) and re.search(r"\(esc [WDS]\)", ast):
             return True
         cps = [int(x, 16) for x in hay.split(".")] if hay != "-" else []
         cps += [int(x, 16) for x in re.findall(r"\((?:char|c) ([0-9a-f]+)\)", ast)]
@@ -388,8 +388,8 @@ PLANS = {
     "C11": dict(proofs=["Proofs.C11"], runs=[("c11", dict(quick=0, thorough=0))],
                 rule="every (kind, name) of the candidate universe (names of either side, all 2-letter names, mutations); non-trivial = accepted by ICU",
                 technique="Lean 4 kernel evaluation (decide +kernel) over tables regenerated from the source vs ICU 78.2 snapshot"),
-    "C12": dict(proofs=["Proofs.C12"], runs=[("c12sets", dict(quick=20000, thorough=400000))],
-                rule="random well-formed interval sets over small and full universes x operation; non-trivial = non-empty operands",
+    "C12": dict(proofs=["Proofs.C12"], runs=[("c12sets", dict(quick=20000, thorough=400000)), ("c12classes", dict(quick=20000, thorough=600000))],
+                rule="(a) random well-formed interval sets over small and full universes x set operation, non-trivial = non-empty operands; (b) /^E$/ for generated class expressions E (legacy brackets; v-mode unions, &&, --, nesting, \\q strings, negation) x flags x every mentioned character, its case partners, range neighbours and mentioned strings with single-edit variants, expected answer from the ES specification model, non-trivial = match",
                 technique="Lean 4 proof of the CodePointSet algebra (all inputs) + correspondence through hook wrappers"),
     "C16": dict(proofs=["Proofs.C16"], runs=[("c16", dict(quick=2000, thorough=60000))],
                 rule="(pattern, haystack, match) with named/unnamed/duplicate-named groups; non-trivial = pattern has a named group",
